@@ -304,5 +304,37 @@ pub fn requests(prop: &str, fl: &str, g: &GraphSpec, thorough: bool, rng: Option
         }
         _ => {}
     }
+    // builder reuse: several searches on ONE builder object (`mode1+mode2`, `path:K` retargets first). Nothing may
+    // survive from one call to the next: every stage must be the search the property describes.
+    let mut h = 0usize;
+    if prop == "C10" || prop == "C07" || prop == "C08" {
+        let opats = ["nodes+edges", "edges+nodes", "nodes+nodes", "edges+edges+nodes"];
+        for d in if prop == "C10" { if is_directed(fl) { vec!["fwd", "default"] } else { vec!["fwd"] } } else { dirs(fl, true) } {
+            let ms = pick_methods(fl, d == "tr", rng, prop != "C10");
+            for &r in &roots {
+                for m in ms.iter().take(3) {
+                    for k in ["pre", "post"] {
+                        h += 1;
+                        l.push(format!("order {k} {d} {r} {m} {}", opats[h % opats.len()]));
+                    }
+                }
+            }
+        }
+    }
+    if prop != "C10" {
+        for d in dirs(fl, true) {
+            let ms = pick_methods(fl, d == "tr", rng, prop == "C06" || prop == "C07" || prop == "C08");
+            for &(r, t) in &pairs {
+                for k in &search_kinds {
+                    for m in ms.iter().take(3) {
+                        h += 1;
+                        let t2 = (t + 1 + h % n.max(1)) % n.max(1);
+                        let pats = [format!("path+path"), format!("path+path:{t2}"), format!("path+node"), format!("path+cycle"), format!("path:{t2}+path:{t}"), format!("path+path+cycle"), format!("path:{t2}+node")];
+                        l.push(format!("search {k} {d} {r} {t} {m} {}", pats[h % pats.len()]));
+                    }
+                }
+            }
+        }
+    }
     l
 }
